@@ -14,7 +14,7 @@ def _resize_ss2():
     new backup footprint is evacuated before the flush writes a superblock + descriptors there; the old one is given back exactly"""
     out = []
     for h in _m08.HARNESSES:
-        if h["name"] in ("ss2reserve", "ss2clear"):
+        if h["name"] in ("ss2reserve", "ss2clear", "newgroups"):
             d = dict(h)
             d["src"] = "../C08/" + h["src"]
             d["configs"] = [c for c in h["configs"] if c.get("_tier") != "thorough"][:2]
@@ -31,6 +31,16 @@ def _get_backup_sb():
             d["configs"] = [dict((k, v) for k, v in c.items() if k != "_tier") for c in h["configs"]]
             return d
     raise RuntimeError("C13 get_backup_sb harness missing")
+
+def _probe_try_open():
+    """e2fsck -b <backup> without -B (source harness/C13/probe_try_open.c): try_open_fs probes every block size 1 KiB .. 64 KiB in
+    order and re-opens with the size that worked"""
+    for h in _m13.HARNESSES:
+        if h["name"] == "probe_try_open":
+            d = dict(h)
+            d["src"] = "../C13/probe_try_open.c"
+            return d
+    raise RuntimeError("C13 probe_try_open harness missing")
 
 def _main_backup():
     """e2fsck/unix.c main() through its final close (source harness/C13/main_e2fsck_full.c): a repairing run that completed on
@@ -75,6 +85,7 @@ HARNESSES = [
          bound="1..6 groups; primary superblock, candidate backup superblock (all 1024 bytes each), fs flags, e2fsck flags/options symbolic"),
     _main_backup(),
     _get_backup_sb(),
+    _probe_try_open(),
 ] + _resize_ss2() + [
     dict(name="bg_has_super", src="bg_has_super.c",
          funcs=["ext2fs_bg_has_super", "test_root"],
